@@ -50,8 +50,12 @@ static void run()
         base.m[k].height = (uint32_t)nondet_range(1, 0x7ffffffe); base.m[k].coinbase = nondet_bool();
         mv[k] = base.m[k];
     }
+#ifdef ONE_LAYER
+    CCoinsViewCache view(&base, true);   // the UTXO view validation works on: one cache over the (map-model) database view
+#else
     CCoinsViewCache parent(&base, true);
     CCoinsViewCache view(&parent, true);
+#endif
 
     g_txsel = 0;
     CMutableTransaction m;
@@ -115,7 +119,11 @@ static void run()
     }
     for (int k = 0; k < NKEYS; k++) VASSERT(same(view.PeekCoin(DKEY(k)), base.m[k]), "after disconnect the view equals the view before connect (value, height, coinbase flag)");
     view.SanityCheck();
+#ifdef ONE_LAYER
+    view.Flush();
+#else
     view.Flush(); parent.Flush();
+#endif
     for (int k = 0; k < 2; k++) {
         const bool p = (PRESENT >> k) & 1;
         VASSERT(base.m[k].present == p, "flushing connect+disconnect leaves the base UTXO set unchanged (presence)");
